@@ -207,6 +207,19 @@ def rule_r2_header(ctx):
     ctx.r.floor(rid, n_checked, 4, "return values of HTTPRequestParser.received")
 
 
+def _linear_terms(e, sign=1):
+    """[(sign, atom)] of an expression built with + and - (unary minus included)."""
+    if isinstance(e, ast.BinOp) and isinstance(e.op, ast.Add):
+        return _linear_terms(e.left, sign) + _linear_terms(e.right, sign)
+    if isinstance(e, ast.BinOp) and isinstance(e.op, ast.Sub):
+        return _linear_terms(e.left, sign) + _linear_terms(e.right, -sign)
+    if isinstance(e, ast.UnaryOp) and isinstance(e.op, ast.USub):
+        return _linear_terms(e.operand, -sign)
+    if isinstance(e, ast.UnaryOp) and isinstance(e.op, ast.UAdd):
+        return _linear_terms(e.operand, sign)
+    return [(sign, e)]
+
+
 def rule_r2_receivers(ctx, rid="C02.R2b"):
     ctx.r.rule(rid, "consumed-count accounting in the body receivers (fixed: rm or len(data); chunked trailer exits: orig - (len(carry + rest) - cut))")
     p = ctx.p
@@ -281,8 +294,13 @@ def rule_r2_receivers(ctx, rid="C02.R2b"):
         # form  orig - (len(J) - cut)  with J = carry + s
         n_exits += 1
         ok = False
-        if isinstance(v, ast.BinOp) and isinstance(v.op, ast.Sub) and dotted(v.left) == orig and isinstance(v.right, ast.BinOp) and isinstance(v.right.op, ast.Sub):
-            lenpart, cut = v.right.left, v.right.right
+        # as a linear form:  +orig  -len(J)  +cut   (any bracketing: orig - (len(J) - cut), orig - len(J) + cut, ...)
+        terms = _linear_terms(v)
+        pos_orig = [t for (sg, t) in terms if sg > 0 and dotted(t) == orig]
+        neg_len = [t for (sg, t) in terms if sg < 0 and isinstance(t, ast.Call) and dotted(t.func) == "len"]
+        rest_t = [(sg, t) for (sg, t) in terms if not (sg > 0 and dotted(t) == orig) and not (sg < 0 and isinstance(t, ast.Call) and dotted(t.func) == "len")]
+        if len(pos_orig) == 1 and len(neg_len) == 1 and len(rest_t) == 1 and rest_t[0][0] > 0:
+            lenpart, cut = neg_len[0], rest_t[0][1]
             if isinstance(lenpart, ast.Call) and dotted(lenpart.func) == "len":
                 j = dotted(lenpart.args[0])
                 # J must be  carry + s  (reaching def)
